@@ -1353,4 +1353,55 @@ theorem inv4_new {iid : Nat} {m : List (Cid × Nat)} {hid : Cid} {e : Option Nat
   obtain ⟨m', _, rfl⟩ := new_spec h
   exact ⟨rfl, by simp [emitted, framesOf]⟩
 
+
+/-! ### registrations carry consecutive sequence numbers -/
+
+theorem registered_seqs_step (p : Nat) {s : State} (h : s.registered.map (·.1) = List.range s.nextSeq) (op : Op) :
+    (Quic.Conn.LocalIds.step p s op).1.registered.map (·.1) = List.range (Quic.Conn.LocalIds.step p s op).1.nextSeq := by
+  cases op with
+  | setLimit => exact h
+  | register id e t =>
+    rcases register_cases s id e t with ⟨h1, _⟩ | ⟨m, _, _, _, _, heq⟩
+    · simp only [Quic.Conn.LocalIds.step]; rw [h1]; exact h
+    · simp only [Quic.Conn.LocalIds.step]; rw [heq]
+      simp only [registerOk, List.map_append, List.map_cons, List.map_nil, h, List.range_succ]
+  | onRetire seq dcid rtt now =>
+    simp only [Quic.Conn.LocalIds.step]
+    rcases onRetire_cases s seq dcid rtt now with ⟨h1, _⟩ | ⟨h1, _⟩ | ⟨pre, x, post, hs, _, h1⟩ <;> (rw [h1]; exact h)
+  | onTimeout now =>
+    simp only [Quic.Conn.LocalIds.step, onTimeout]
+    split
+    · split
+      · exact h
+      · exact h
+    · exact h
+  | onTransmit c pn room =>
+    simp only [Quic.Conn.LocalIds.step, onTransmit]
+    split <;> exact h
+  | onPacketAck set =>
+    simp only [Quic.Conn.LocalIds.step, onPacketAck]
+    split <;> exact h
+  | onPacketLoss set =>
+    simp only [Quic.Conn.LocalIds.step, onPacketLoss]
+    split <;> exact h
+  | onHandshakeConfirmed =>
+    simp only [Quic.Conn.LocalIds.step, onHandshakeConfirmed]
+    split
+    · rcases retireHandshake_cases s with h1 | ⟨pre, x, post, hs, _, _, h1⟩ <;> (rw [h1]; exact h)
+    · exact h
+  | envInsert id owner =>
+    simp only [Quic.Conn.LocalIds.step]
+    split
+    · exact h
+    · split <;> exact h
+  | envRemove id =>
+    simp only [Quic.Conn.LocalIds.step]
+    split <;> exact h
+
+theorem registered_seqs_run (p : Nat) {s : State} (h : s.registered.map (·.1) = List.range s.nextSeq) (ops : List Op) :
+    (run p s ops).registered.map (·.1) = List.range (run p s ops).nextSeq := by
+  induction ops generalizing s with
+  | nil => exact h
+  | cons op ops ih => exact ih (registered_seqs_step p h op)
+
 end Quic.Proofs.LocalIds
